@@ -568,7 +568,10 @@ func TestRedirectAndChallengeHandlers(t *testing.T) {
 		)
 
 		code := 0
-		to := "https://login.example.com/" + rapid.StringMatching("[a-z]{0,5}").Draw(t, "to")
+		// (a Location may be any URI reference: absolute, an absolute path, or relative to the request, RFC 9110, section 10.2.2)
+		to := rapid.SampledFrom([]string{"https://login.example.com/", "https://login.example.com/", "/", "/login/", "login/", "../login/", "//login.example.com/"}).Draw(t, "toForm") +
+			rapid.StringMatching("[a-z]{0,5}").Draw(t, "to")
+		vkit.S.LabelIf(!strings.HasPrefix(to, "https://"), "redirect_target_is_a_relative_reference")
 		realm := rapid.SampledFrom([]string{"", "My Realm", "api"}).Draw(t, "realm")
 		overrideRealm := ""
 		useOverride := false
